@@ -104,7 +104,9 @@ def run(ctx):
         if mode == "robsd":
             exp = []
             for fn, size, prev in c["sizes"]:
-                if prev is None or fn == "CHANGELOG" or ".diff." in fn:
+                # listed only for files present in this AND the previous invocation (the newest other
+                # one, whether or not it got as far as a release; an older one is never used instead)
+                if prev is None or c.get("prevnorel") or fn == "CHANGELOG" or ".diff." in fn:
                     continue
                 da = abs(size - prev)
                 if da < (1024 if fn == "bsd.rd" else 1048576):
@@ -113,7 +115,7 @@ def run(ctx):
                 distinct.add((fn, size, prev))
             gots = [l.decode() for l in out.split(b"\n") if l.startswith(b"Size: ")]
             if gots != sorted(exp):
-                ctx.violation("size lines %s, expected %s" % (gots, sorted(exp)), dict(sizes=c["sizes"]))
+                ctx.violation("size lines %s, expected %s" % (gots, sorted(exp)), dict(sizes=c["sizes"], previous_has_release=not c.get("prevnorel"), older_invocation=c.get("older")))
         # ---- the shell twin of the total
         if t % 4 == 0:
             csv = os.path.join(b, "step.csv")
